@@ -96,18 +96,18 @@ class Bool:
 
 
 class Ptr:
-    __slots__ = ("targets", "len", "src")
+    __slots__ = ("targets", "lencell", "src")
 
-    def __init__(self, targets, len=None, src=None):
+    def __init__(self, targets, lencell=None, src=None):
         self.targets = frozenset(targets)
-        self.len = len      # for slice pointers: Num of the length (usize) when known
+        self.lencell = lencell   # for slice / array pointers: the memory cell that holds the length (a usize Num)
         self.src = src
 
     def __repr__(self):
-        return "ptr%s%s" % (sorted(self.targets, key=repr)[:2], (" len=%r" % self.len) if self.len is not None else "")
+        return "ptr%s%s" % (sorted(self.targets, key=repr)[:2], (" len@%s" % (self.lencell,)) if self.lencell is not None else "")
 
     def key(self):
-        return ("P", self.targets, self.len.key() if self.len is not None else None)
+        return ("P", self.targets, self.lencell)
 
 
 class Tup:
@@ -140,6 +140,57 @@ class TopV:
 
 
 TOP = TopV()
+
+
+class Facts:
+    """Linear facts `symA + k <= symB` that hold on the current path (k maximal known)."""
+    __slots__ = ("d", "src")
+
+    def __init__(self, d=None):
+        self.d = dict(d or {})
+        self.src = None
+
+    def key(self):
+        return ("F", tuple(sorted(self.d.items())))
+
+    def add(self, a, k, b):
+        """Add a + k <= b and close transitively (one step through the new edge)."""
+        if a == b:
+            return self
+        if (a, b) in self.d and self.d[(a, b)] >= k:
+            return self
+        d = dict(self.d)
+        d[(a, b)] = k
+        ins = [(x, k0) for (x, y), k0 in self.d.items() if y == a and x != b]
+        outs = [(y, k2) for (x, y), k2 in self.d.items() if x == b and y != a]
+        for (y, k2) in outs:
+            if d.get((a, y), -(2**80)) < k + k2:
+                d[(a, y)] = k + k2
+        for (x, k0) in ins:
+            if d.get((x, b), -(2**80)) < k0 + k:
+                d[(x, b)] = k0 + k
+            for (y, k2) in outs:
+                if x != y and d.get((x, y), -(2**80)) < k0 + k + k2:
+                    d[(x, y)] = k0 + k + k2
+        if len(d) > 1500:
+            # keep the analysis bounded: prefer facts about lengths
+            d = {kk: v for kk, v in d.items() if kk[1].startswith("LEN") or kk[0].startswith("LEN")}
+        return Facts(d)
+
+    def drop_symbol(self, sym):
+        return Facts({k: v for k, v in self.d.items() if sym not in k})
+
+    def get(self, a, b):
+        return self.d.get((a, b))
+
+    def about(self, a):
+        return [(b, k) for (x, b), k in self.d.items() if x == a]
+
+    def __repr__(self):
+        return "facts{%s}" % ", ".join("%s+%d<=%s" % (a, k, b) for (a, b), k in sorted(self.d.items()))
+
+
+FACTS = ("$facts",)
 
 
 def top_of(ty):
@@ -603,6 +654,10 @@ def join(a, b):
         return b
     if b is None:
         return a
+    if isinstance(a, Facts) or isinstance(b, Facts):
+        if not (isinstance(a, Facts) and isinstance(b, Facts)):
+            return Facts()
+        return Facts({k: min(v, b.d[k]) for k, v in a.d.items() if k in b.d})
     if isinstance(a, Num) and isinstance(b, Num) and a.ty == b.ty:
         if a.lo > a.hi and not a.nan:
             return b
@@ -613,8 +668,7 @@ def join(a, b):
     if isinstance(a, Bool) and isinstance(b, Bool):
         return Bool(a.t or b.t, a.f or b.f, a.cmp if a.cmp == b.cmp else None, a.src if a.src == b.src else None)
     if isinstance(a, Ptr) and isinstance(b, Ptr):
-        ln = join(a.len, b.len) if (a.len is not None and b.len is not None) else None
-        return Ptr(a.targets | b.targets, ln)
+        return Ptr(a.targets | b.targets, a.lencell if a.lencell == b.lencell else None)
     if isinstance(a, Tup) and isinstance(b, Tup) and len(a.items) == len(b.items) and a.tag == b.tag:
         return Tup([join(x, y) for x, y in zip(a.items, b.items)], a.tag)
     return TOP
@@ -622,7 +676,7 @@ def join(a, b):
 
 def widen(old, new, thresholds):
     if isinstance(old, Num) and isinstance(new, Num) and old.ty == new.ty:
-        lo, hi = new.lo, new.hi
+        lo, hi = min(old.lo, new.lo), max(old.hi, new.hi)
         if new.lo < old.lo:
             cands = [t for t in thresholds if t <= new.lo]
             lo = max(cands) if cands else (INT_RANGE[new.ty][0] if is_int(new.ty) else -INF)
@@ -736,6 +790,8 @@ class AbsInt:
         self.snapshot_stores = False
         self.local_defs = []     # (fn, local, name, value, bb, si, loc) for assignments to named user variables
         self.name_syms = {}      # (fn stable, variable name) -> symbol name
+        self.len_syms = {}       # LEN symbol -> its length cell
+        self._cur_mem = None
 
     # ------------------------------------------------------------------ running
     def run(self, fn, entry=None):
@@ -750,28 +806,58 @@ class AbsInt:
             v = entry.params.get(l)
             if v is None:
                 if ty.startswith("&") or ty.startswith("*"):
-                    v = Ptr([(frame, l, ("deref",))])
-                    if "[" in ty and ty.rstrip().endswith("]") and ";" not in ty:
-                        elem = ty[ty.index("[") + 1:-1]
-                        v.len = self._len_top(elem, "LEN_%d" % l)
+                    v = self._fresh_ptr((frame, l, ("deref",)), ty, mem)
                 else:
                     v = top_of(ty)
+                    if isinstance(v, Num) and is_int(v.ty):
+                        v = self._with_cell_symbol(v, (frame, l, ()))
             mem[(frame, l, ())] = v
         for (l, proj), v in entry.cells.items():
             mem[(frame, l, proj)] = v
             # the param itself points at its pointee cell
-            mem[(frame, l, ())] = Ptr([(frame, l, ("deref",))], getattr(mem.get((frame, l, ())), "len", None))
+            mem[(frame, l, ())] = Ptr([(frame, l, ("deref",))], getattr(mem.get((frame, l, ())), "lencell", None))
         ret, mem_out = self._analyze(fn, frame, mem, [fn.stable])
         self.top_frame = frame
         self.exit_mem = mem_out
         self.ret = ret
         return ret, mem_out
 
-    def _len_top(self, elem_ty, name):
-        size = {"u8": 1, "i8": 1, "u16": 2, "i16": 2, "u32": 4, "i32": 4, "u64": 8, "i64": 8}.get(elem_ty, 1)
-        hi = (2**63 - 1) // size
-        self.symenv.ranges.setdefault(name, (0, hi))
-        return Num("usize", 0, hi, False, ("s", name), None, (1, name, 0))
+    def _fresh_ptr(self, target, ty, mem):
+        """Pointer to `target`; for slice pointers a length cell is created next to it."""
+        p = Ptr([target])
+        if "[" in ty and ty.rstrip().endswith("]") and ";" not in ty:
+            elem = ty[ty.index("[") + 1:-1]
+            lc = (target[0], target[1], target[2] + ("len",))
+            if lc not in mem:
+                size = {"u8": 1, "i8": 1, "u16": 2, "i16": 2, "u32": 4, "i32": 4, "u64": 8, "i64": 8}.get(elem, 1)
+                hi = (2**63 - 1) // size
+                name = "LEN%s" % _cellname(lc)
+                self.symenv.ranges.setdefault(name, (0, hi))
+                self.len_syms[name] = lc
+                mem[lc] = Num("usize", 0, hi, False, ("s", name), None, (1, name, 0))
+            p.lencell = lc
+        else:
+            n = _array_len(ty.lstrip("&").replace("mut ", "").strip())
+            if n is not None:
+                lc = (target[0], target[1], target[2] + ("len",))
+                mem[lc] = const_num("usize", n)
+                p.lencell = lc
+        return p
+
+    def _with_cell_symbol(self, v, cell):
+        """An integer of unknown value gets a symbol of its own so that comparisons against it can be remembered."""
+        if v.lin is None and v.lo < v.hi:
+            name = "C%s" % _cellname(cell)
+            self.symenv.ranges.setdefault(name, (v.lo, v.hi))
+            return v.copy(lin=(1, name, 0))
+        return v
+
+    def len_of(self, p, mem):
+        if isinstance(p, Ptr) and p.lencell is not None:
+            v = mem.get(p.lencell)
+            if isinstance(v, Num):
+                return _with_src(v, p.lencell)
+        return None
 
     def _new_frame(self):
         self.frame_counter += 1
@@ -814,6 +900,7 @@ class AbsInt:
             if v is None:
                 v = self._from_parent(c, mem)
             if v is None:
+                self._cur_mem = mem
                 v = self._materialise(c, place, ty, fn)
                 mem[c] = v
             if len(cells) == 1 and isinstance(v, (Num, Bool)):
@@ -857,12 +944,11 @@ class AbsInt:
         if ty is None and not place["proj"]:
             ty = fn.locals[place["l"]]["ty"]
         if ty is not None and (ty.startswith("&") or ty.startswith("*")):
-            p = Ptr([(c[0], c[1], c[2] + ("deref",))])
-            if "[" in ty and ty.rstrip().endswith("]") and ";" not in ty:
-                elem = ty[ty.index("[") + 1:-1]
-                p.len = self._len_top(elem, "LEN_%s" % "_".join(str(x) for x in c[1:2]))
-            return p
-        return top_of(ty)
+            return self._fresh_ptr((c[0], c[1], c[2] + ("deref",)), ty, self._cur_mem)
+        v = top_of(ty)
+        if isinstance(v, Num) and is_int(v.ty):
+            v = self._with_cell_symbol(v, c)
+        return v
 
     def store(self, frame, place, val, mem, fn, bb, si, loc, chain, weak=False):
         cells = self.cell_of_place(frame, place, mem, fn)
@@ -874,14 +960,55 @@ class AbsInt:
                 v = _with_src(v, None)
             if weak and before is not None:
                 v = join(before, v)
+            newfacts = None
+            if isinstance(v, Num) and is_int(v.ty) and not weak:
+                v, newfacts = self._cell_symbol_on_store(c, v, mem)
             self._invalidate(c, mem)
+            if newfacts:
+                f = mem.get(FACTS) or Facts()
+                for (a_, k_, b_) in newfacts:
+                    f = f.add(a_, k_, b_)
+                mem[FACTS] = f
             mem[c] = v
             if c[2]:
                 self.stores.append(StoreEvent(c, val, fn, bb, si, loc, before, tuple(chain),
                                               dict(mem) if self.snapshot_stores else None))
 
+    def _cell_symbol_on_store(self, c, v, mem):
+        """Every integer cell has a symbol `C<cell>` for its current content. Storing v = s + k re-expresses what is known
+        about s for the cell; a value with nothing linear known just becomes `C<cell> + 0`."""
+        name = "C" + _cellname(c)
+        f = mem.get(FACTS) or Facts()
+        new = []
+        if v.lin is not None and v.lin[0] == 1:
+            s_, cc = v.lin[1], v.lin[2]
+            for (b, k) in f.about(s_):
+                if b != name:
+                    new.append((name, k - cc, b))
+            for (a, b), k in f.d.items():
+                if b == s_ and a != name:
+                    new.append((a, k + cc, name))
+            if s_ != name:
+                # exact relation both ways: name == s + cc
+                new.append((name, -cc, s_))
+                new.append((s_, cc, name))
+        # what the intervals say about the known lengths
+        for lname, lc in self.len_syms.items():
+            lv = mem.get(lc)
+            if isinstance(lv, Num) and v.hi < 2**62 and lv.lo - v.hi > -(2**40):
+                new.append((name, lv.lo - v.hi, lname))
+        self.symenv.ranges[name] = (min(v.lo, self.symenv.ranges.get(name, (v.lo, v.hi))[0]), max(v.hi, self.symenv.ranges.get(name, (v.lo, v.hi))[1]))
+        return v.copy(lin=(1, name, 0)), new
+
     def _invalidate(self, c, mem):
-        """A cell is overwritten: forget sub-cells and `src` links to it."""
+        """A cell is overwritten: forget sub-cells, `src` links to it, and what was known about its old content."""
+        name = "C" + _cellname(c)
+        f = mem.get(FACTS)
+        if f is not None and any(name in k for k in f.d):
+            mem[FACTS] = f.drop_symbol(name)
+        for k, v in list(mem.items()):
+            if isinstance(v, Num) and v.lin is not None and v.lin[1] == name and k != c:
+                mem[k] = v.copy(lin=None)
         pre = c[2]
         n = len(pre)
         dead = []
@@ -932,19 +1059,26 @@ class AbsInt:
             return self.eval_operand(frame, rv["o"], mem, fn)
         if k in ("ref", "raw"):
             cells = self.cell_of_place(frame, rv["p"], mem, fn)
-            ln = None
-            # &(*p) of a slice pointer keeps its length; &array has constant length
+            lc = None
+            # &(*p) of a slice pointer keeps its length cell; &array has a constant length
             p = rv["p"]
             if p["proj"] and p["proj"][-1]["k"] == "deref":
                 base = self.load(frame, {"l": p["l"], "proj": p["proj"][:-1]}, mem, fn)
                 if isinstance(base, Ptr):
-                    ln = base.len
-            if ln is None and not p["proj"]:
-                lt = fn.locals[p["l"]]["ty"]
-                n = _array_len(lt)
-                if n is not None:
-                    ln = const_num("usize", n)
-            return Ptr(cells, ln)
+                    lc = base.lencell
+            if lc is None and len(cells) == 1:
+                pty = None
+                if not p["proj"]:
+                    pty = fn.locals[p["l"]]["ty"]
+                n = _array_len(pty) if pty else None
+                if n is None and dest_ty:
+                    n = _array_len(dest_ty.lstrip("&").replace("mut ", "").replace("'_ ", "").strip())
+                if n is None and len(cells) == 1 and (cells[0][0], cells[0][1], cells[0][2] + ("len",)) in mem:
+                    lc = (cells[0][0], cells[0][1], cells[0][2] + ("len",))
+                elif n is not None:
+                    lc = (cells[0][0], cells[0][1], cells[0][2] + ("len",))
+                    mem[lc] = const_num("usize", n)
+            return Ptr(cells, lc)
         if k == "bin":
             a = self.eval_operand(frame, rv["a"], mem, fn)
             b = self.eval_operand(frame, rv["b"], mem, fn)
@@ -965,8 +1099,9 @@ class AbsInt:
                 n, ovf = num_bin("Sub", const_num(a.ty, 0), a, a.ty, self.checked)
                 return n
             if op == "PtrMetadata":
-                if isinstance(a, Ptr) and a.len is not None:
-                    return a.len
+                ln = self.len_of(a, mem)
+                if ln is not None:
+                    return ln
                 return Num("usize", 0, 2**63 - 1)
             return top_of(rv.get("oty"))
         if k == "cast":
@@ -1091,7 +1226,65 @@ class AbsInt:
             return False
         self._write_back(mem, ra, na, a_cur)
         self._write_back(mem, rb, nb, b_cur)
+        # remember the relation itself when both sides are `symbol + constant`
+        la, lb = a_cur.lin, b_cur.lin
+        if la is not None and lb is not None and la[0] == 1 and lb[0] == 1 and is_int(a_cur.ty):
+            f = mem.get(FACTS) or Facts()
+            if op == "Lt":
+                f = f.add(la[1], la[2] + 1 - lb[2], lb[1])
+            elif op == "Le":
+                f = f.add(la[1], la[2] - lb[2], lb[1])
+            elif op == "Gt":
+                f = f.add(lb[1], lb[2] + 1 - la[2], la[1])
+            elif op == "Ge":
+                f = f.add(lb[1], lb[2] - la[2], la[1])
+            mem[FACTS] = f
         return True
+
+    def upper(self, v, mem):
+        """Best known upper bound of an integer value, using the path's linear facts."""
+        hi = v.hi
+        if isinstance(v, Num) and v.lin is not None and v.lin[0] == 1:
+            f = mem.get(FACTS)
+            if f is not None:
+                for (b, k) in f.about(v.lin[1]):
+                    r = self.symenv.ranges.get(b)
+                    if r is not None:
+                        hi = min(hi, r[1] - k + v.lin[2])
+        return hi
+
+    def proves_lt(self, ix, ln, mem):
+        """ix < ln ?"""
+        if not (isinstance(ix, Num) and isinstance(ln, Num)):
+            return False
+        if ix.hi < ln.lo:
+            return True
+        if ix.lin is not None and ln.lin is not None and ix.lin[0] == 1 and ln.lin[0] == 1:
+            if ix.lin[1] == ln.lin[1]:
+                return ix.lin[2] < ln.lin[2]
+            f = mem.get(FACTS)
+            if f is not None:
+                k = f.get(ix.lin[1], ln.lin[1])
+                if k is not None and k >= ix.lin[2] + 1 - ln.lin[2]:
+                    return True
+        if ix.sym is not None and ln.sym is not None and self.symenv.le(("+", ix.sym, ("c", 1)), ln.sym):
+            return True
+        return False
+
+    def proves_le(self, a, b, mem):
+        if not (isinstance(a, Num) and isinstance(b, Num)):
+            return False
+        if a.hi <= b.lo:
+            return True
+        if a.lin is not None and b.lin is not None and a.lin[0] == 1 and b.lin[0] == 1:
+            if a.lin[1] == b.lin[1]:
+                return a.lin[2] <= b.lin[2]
+            f = mem.get(FACTS)
+            if f is not None:
+                k = f.get(a.lin[1], b.lin[1])
+                if k is not None and k >= a.lin[2] - b.lin[2]:
+                    return True
+        return False
 
     def _cur(self, mem, ref, default):
         if ref is None:
@@ -1157,9 +1350,58 @@ class AbsInt:
                     states[succ] = new
                     if succ not in work:
                         work.append(succ)
+                    if succ in heads:
+                        # relational facts attached at the head must reach the body un-joined with the
+                        # states of earlier (narrower) passes: recompute the body from the new head state
+                        for b2 in cfg.loop_body(succ):
+                            if b2 != succ and b2 in states:
+                                del states[b2]
+                                if b2 in work:
+                                    work.remove(b2)
         if ret_mem is None:
             ret_mem = {}
         return ret_val, ret_mem
+
+    def _rebind_phis(self, fn, frame, head, old, m):
+        """Loop head: integer locals whose value differs between the states get a symbol of their own (`PHI`),
+        and the linear facts known about the incoming values are re-expressed for it."""
+        old = dict(old)
+        m = dict(m)
+        for cell in list(m.keys()):
+            if cell == FACTS or cell[0] != frame or cell[2]:
+                continue
+            vo, vm = old.get(cell), m.get(cell)
+            if not (isinstance(vo, Num) and isinstance(vm, Num) and is_int(vm.ty) and vo.ty == vm.ty):
+                continue
+            p = "PHI_%d_%d_%d" % (frame, head, cell[1])
+            if vo.key() == vm.key() and not (vo.lin is not None and vo.lin[1] == p):
+                continue
+            if vo.lin == (1, p, 0) and vm.lin == (1, p, 0) and vo.key() == vm.key():
+                continue
+            self.symenv.ranges[p] = (min(vo.lo, vm.lo, self.symenv.ranges.get(p, (vo.lo, vo.hi))[0]), max(vo.hi, vm.hi, self.symenv.ranges.get(p, (vo.lo, vo.hi))[1]))
+            for st_, v in ((old, vo), (m, vm)):
+                if v.lin == (1, p, 0):
+                    continue
+                f = st_.get(FACTS) or Facts()
+                cands = {}
+                if v.lin is not None and v.lin[0] == 1:
+                    for (b, k) in f.about(v.lin[1]):
+                        cands[b] = k - v.lin[2]
+                for name, lc in self.len_syms.items():
+                    lv = st_.get(lc)
+                    if isinstance(lv, Num) and lv.lin is not None and lv.lin[1] == name and lv.lo - v.hi > -(2**62):
+                        cands[name] = max(cands.get(name, -(2**70)), lv.lo - v.hi)
+                f = f.drop_symbol(p)
+                for b, k in cands.items():
+                    if b != p:
+                        f = f.add(p, k, b)
+                st_[FACTS] = f
+                # stale `p + c` forms elsewhere in this state no longer mean anything
+                for c2, v2 in list(st_.items()):
+                    if c2 != cell and isinstance(v2, Num) and v2.lin is not None and v2.lin[1] == p:
+                        st_[c2] = v2.copy(lin=None)
+                st_[cell] = v.copy(lin=(1, p, 0), sym=None)
+        return old, m
 
     def _thresholds(self, fn):
         ts = set([0, 1])
@@ -1173,6 +1415,9 @@ class AbsInt:
         out = {}
         for k in a.keys() | b.keys():
             va, vb = a.get(k), b.get(k)
+            if k == FACTS:
+                out[k] = join(va if va is not None else Facts(), vb if vb is not None else Facts())
+                continue
             if va is None or vb is None:
                 # a cell known on one side only: for deref'd memory that means "unchanged / unknown" -> drop
                 if k[2]:
@@ -1186,6 +1431,11 @@ class AbsInt:
         out = {}
         for k in a.keys() | b.keys():
             va, vb = a.get(k), b.get(k)
+            if k == FACTS:
+                fa_, fb_ = (va if va is not None else Facts()), (vb if vb is not None else Facts())
+                # a fact whose slack keeps shrinking is dropped
+                out[k] = Facts({kk: v for kk, v in fa_.d.items() if kk in fb_.d and fb_.d[kk] >= v})
+                continue
             if va is None or vb is None:
                 if k[2]:
                     continue
@@ -1208,7 +1458,8 @@ class AbsInt:
             k = s["k"]
             if k == "assign":
                 loc = s.get("loc")
-                val = self.eval_rvalue(frame, s["rv"], mem, fn, bb, si, loc, chain)
+                dty = s.get("pty") if s["p"]["proj"] else fn.locals[s["p"]["l"]]["ty"]
+                val = self.eval_rvalue(frame, s["rv"], mem, fn, bb, si, loc, chain, dty)
                 self.store(frame, s["p"], val, mem, fn, bb, si, loc, chain)
                 if not s["p"]["proj"] and s["p"]["l"] in fn.names:
                     nm = fn.names[s["p"]["l"]]
@@ -1222,7 +1473,12 @@ class AbsInt:
                         mem[(frame, s["p"]["l"], ())] = val
                     self.local_defs.append((fn, s["p"]["l"], nm, val, bb, si, loc))
             elif k == "dead":
-                pass
+                # the temporary is gone: what was derived through it has already been closed transitively
+                f = mem.get(FACTS)
+                if f is not None:
+                    name = "C" + _cellname((frame, s["l"], ()))
+                    if any(name in kk for kk in f.d):
+                        mem[FACTS] = f.drop_symbol(name)
         t = blk["term"]
         k = t["k"]
         nst = len(blk["stmts"])
@@ -1250,15 +1506,20 @@ class AbsInt:
                 ln = self.eval_operand(frame, t["len"], mem, fn)
                 ix = self.eval_operand(frame, t["index"], mem, fn)
                 detail = "index %r, len %r" % (ix, ln)
-                if can_fail and isinstance(ln, Num) and isinstance(ix, Num):
-                    if ix.hi < ln.lo:
-                        can_fail = False
-                    elif ix.lin is not None and ln.lin is not None and ix.lin[1] == ln.lin[1] and ix.lin[0] == ln.lin[0] and ix.lin[2] < ln.lin[2]:
-                        can_fail = False
-                    elif ix.sym is not None and ln.sym is not None and self.symenv.le(("+", ix.sym, ("c", 1)), ln.sym):
-                        can_fail = False
+                if can_fail and self.proves_lt(ix, ln, mem):
+                    can_fail = False
             elif ak == "Overflow":
-                detail = "%s(%r, %r)" % (t["op"], self.eval_operand(frame, t["a"], mem, fn), self.eval_operand(frame, t["b"], mem, fn))
+                oa, ob_ = self.eval_operand(frame, t["a"], mem, fn), self.eval_operand(frame, t["b"], mem, fn)
+                detail = "%s(%r, %r)" % (t["op"], oa, ob_)
+                if can_fail and isinstance(oa, Num) and isinstance(ob_, Num) and is_int(oa.ty) and t["op"] in ("Add", "Sub", "Mul"):
+                    a2 = oa.copy(hi=min(oa.hi, self.upper(oa, mem)))
+                    b2 = ob_.copy(hi=min(ob_.hi, self.upper(ob_, mem)))
+                    if t["op"] == "Sub" and self.proves_le(ob_, oa, mem) and oa.lo >= 0:
+                        can_fail = False
+                    else:
+                        _n, ovf2 = num_bin(t["op"], a2, b2, oa.ty, True)
+                        if not ovf2:
+                            can_fail = False
             elif ak in ("DivisionByZero", "RemainderByZero"):
                 d = self.eval_operand(frame, t["a"], mem, fn)
                 detail = "divisor %r" % (d,)
@@ -1444,8 +1705,14 @@ def _ref(o, frame):
     return (frame, p["l"], ())
 
 
+def _cellname(c):
+    return "_%s_%s%s" % (c[0], c[1], "".join("." + (x if isinstance(x, str) else str(x[1])) for x in c[2]))
+
+
 def _array_len(ty):
     # "[u8; 258]"
+    if ty is None:
+        return None
     if ty.startswith("[") and ty.endswith("]") and ";" in ty:
         try:
             return int(ty[ty.rindex(";") + 1:-1].strip())
@@ -1745,10 +2012,100 @@ def std_summary(ai, path, args, t, mem, frame, fn, bb, loc, chain):
             return TopV(dty)
         if last == "clone":
             return a
+    # ---- iterators over ranges and slices
+    if p.endswith("IntoIterator>::into_iter") and len(args) == 1:
+        return args[0]
+    if p.endswith("Iterator::enumerate") and len(args) == 1:
+        return Tup([args[0]], "Enumerate")
+    if (p.endswith("<impl [T]>::iter") or p.endswith("<impl [T]>::iter_mut")) and len(args) == 1:
+        return Tup([args[0]], "SliceIter")
+    if "ops::Range<" in p and p.endswith("Iterator>::next") or p.endswith("for std::ops::Range<A>>::next") or (p.endswith("::next") and "range::<impl" in p and "RangeInclusive" not in p):
+        it = args[0]
+        if isinstance(it, Ptr) and len(it.targets) == 1:
+            c = next(iter(it.targets))
+            rv = mem.get(c)
+            if isinstance(rv, Tup) and rv.tag == ("start", "end") and isinstance(rv.items[0], Num) and isinstance(rv.items[1], Num):
+                st_, en = rv.items
+                pay = Num(st_.ty, st_.lo, max(st_.lo, en.hi - 1))
+                ai._invalidate(c, mem)
+                mem[c] = Tup([Num(st_.ty, st_.lo, max(st_.hi, en.hi)), en], ("start", "end"))
+                return Tup([pay], "Option")
+        return Tup([top_of("usize")], "Option")
+    if p.endswith("Iterator>::position") or p.endswith("Iterator::position"):
+        it = args[0]
+        src = None
+        if isinstance(it, Ptr) and len(it.targets) == 1:
+            src = mem.get(next(iter(it.targets)))
+        elif isinstance(it, Tup):
+            src = it
+        while isinstance(src, Tup) and src.tag in ("SliceIter", "Enumerate") and src.items:
+            inner = src.items[0]
+            if isinstance(inner, Ptr) and inner.lencell is not None:
+                ln = mem.get(inner.lencell)
+                if isinstance(ln, Num):
+                    _fresh[0] += 1
+                    nm = "POS%d" % _fresh[0]
+                    ai.symenv.ranges[nm] = (0, max(0, ln.hi - 1))
+                    pay = Num("usize", 0, max(0, ln.hi - 1), False, None, None, (1, nm, 0))
+                    if ln.lin is not None and ln.lin[0] == 1:
+                        mem[FACTS] = (mem.get(FACTS) or Facts()).add(nm, 1 - ln.lin[2], ln.lin[1])
+                    return Tup([pay], "Option")
+                break
+            src = inner
+        return Tup([top_of("usize")], "Option")
+    # ---- slice / array indexing
+    idx_call = ("ops::Index<I> for [T]>::index" in p or "ops::IndexMut<I> for [T]>::index_mut" in p or "ops::Index<I> for [T; N]>::index" in p or
+                "ops::IndexMut<I> for [T; N]>::index_mut" in p or p.endswith("<impl [T]>::get_unchecked"))
+    if idx_call and len(args) == 2:
+        base, ix = args
+        ln = ai.len_of(base, mem)
+        if isinstance(ix, Num):
+            ok_ = ln is not None and ai.proves_lt(ix, ln, mem)
+            ob("call:index", ok_, "index %r of len %r" % (ix, ln))
+            tg = [(c[0], c[1], c[2] + ("idx",)) for c in base.targets] if isinstance(base, Ptr) else []
+            return Ptr(tg) if tg else TopV(dty)
+        lo_ = hi_ = None
+        kind = None
+        if isinstance(ix, Tup):
+            if ix.tag == ("start", "end"):
+                lo_, hi_, kind = ix.items[0], ix.items[1], "range"
+            elif ix.tag == ("end",):
+                lo_, hi_, kind = const_num("usize", 0), ix.items[0], "range"
+            elif ix.tag == ("start",):
+                lo_, hi_, kind = ix.items[0], ln, "range"
+            elif ix.tag == () or ix.tag is None and not ix.items:
+                lo_, hi_, kind = const_num("usize", 0), ln, "range"
+        if kind == "range" and isinstance(lo_, Num) and isinstance(hi_, Num) and ln is not None:
+            ok_ = ai.proves_le(lo_, hi_, mem) and ai.proves_le(hi_, ln, mem)
+            ob("call:slice-range", ok_, "[%r .. %r] of len %r" % (lo_, hi_, ln))
+            tg = [(c[0], c[1], c[2] + ("idx",)) for c in base.targets] if isinstance(base, Ptr) else []
+            if tg:
+                _fresh[0] += 1
+                lc = (tg[0][0], tg[0][1], tg[0][2] + ("sub%d" % _fresh[0], "len"))
+                n, _o = num_bin("Sub", hi_, lo_, "usize", True)
+                if hi_.is_const() and lo_.is_const():
+                    n = const_num("usize", hi_.lo - lo_.lo)
+                mem[lc] = n
+                return Ptr(tg, lc)
+            return TopV(dty)
+        ob("call:index", False, "unrecognised index %r of len %r" % (ix, ln))
+        return TopV(dty)
+    if p.endswith("<impl [T]>::copy_from_slice") and len(args) == 2:
+        a_, b_ = ai.len_of(args[0], mem), ai.len_of(args[1], mem)
+        same = a_ is not None and b_ is not None and ((a_.is_const() and b_.is_const() and a_.lo == b_.lo) or (a_.lin is not None and a_.lin == b_.lin))
+        ob("call:copy_from_slice", same, "dst len %r, src len %r" % (a_, b_))
+        if isinstance(args[0], Ptr):
+            for c in args[0].targets:
+                ai.havoc_prefix(c, mem)
+        return TopV("()")
+    if last in ("to_be_bytes", "to_le_bytes", "to_ne_bytes"):
+        return TopV("array")
     # ---- Option / Result plumbing (values are not tracked, but nothing panics here)
     if p.startswith("std::option::Option::<T>::") or p.startswith("core::option::Option::<T>::"):
         if last in ("unwrap_or",) and len(args) == 2:
             d = args[1]
+            if isinstance(args[0], Tup) and args[0].tag == "Option" and isinstance(args[0].items[0], Num) and isinstance(d, Num):
+                return join(args[0].items[0], d)
             if isinstance(d, Num):
                 return join(top_of(d.ty), d)
             return top_of(dty)
@@ -1759,16 +2116,16 @@ def std_summary(ai, path, args, t, mem, frame, fn, bb, loc, chain):
         return top_of(dty)
     # ---- slices
     if "slice" in p and last == "len" or p.endswith("<impl [T]>::len"):
-        a = args[0]
-        if isinstance(a, Ptr) and a.len is not None:
-            return a.len
+        ln = ai.len_of(args[0], mem)
+        if ln is not None:
+            return ln
         return Num("usize", 0, 2**63 - 1)
     if p.endswith("<impl [T]>::is_empty"):
-        a = args[0]
-        if isinstance(a, Ptr) and a.len is not None:
+        ln = ai.len_of(args[0], mem)
+        if ln is not None:
             z = const_num("usize", 0)
-            tt, ff = cmp_may("Eq", a.len, z)
-            return Bool(tt, ff)
+            tt, ff = cmp_may("Eq", ln, z)
+            return Bool(tt, ff, ("Eq", args[0].lencell, None, ln, z))
         return Bool()
     if p in ("std::clone::Clone::clone", "core::clone::Clone::clone") or last == "clone":
         d = _deref_num(ai, args[0], mem) if args else None
